@@ -21,7 +21,8 @@ type SpecEnv struct {
 	old    *State
 	pkg    *types.Package
 	vars   map[string]*Val
-	lookup func(name string) (*Val, bool)
+	lookup func(st *State, name string) (*Val, bool)
+	entry  *State // state at loop entry (for entry(e) in loop clauses)
 	frame  *Frame
 	depth  int
 }
@@ -149,7 +150,7 @@ func (env *SpecEnv) ident(name string) *Val {
 		return &Val{Ty: types.Typ[types.UntypedNil], L: []string{"0"}}
 	}
 	if env.lookup != nil {
-		if v, ok := env.lookup(name); ok {
+		if v, ok := env.lookup(env.st, name); ok {
 			return v
 		}
 	}
@@ -246,7 +247,7 @@ func (env *SpecEnv) selector(n *ast.SelectorExpr) *Val {
 		if _, isVar := env.vars[id.Name]; !isVar {
 			shadow := false
 			if env.lookup != nil {
-				_, shadow = env.lookup(id.Name)
+				_, shadow = env.lookup(env.st, id.Name)
 			}
 			if !shadow {
 				if p := env.importedPkg(id.Name); p != nil {
@@ -388,8 +389,7 @@ func (env *SpecEnv) index(n *ast.IndexExpr) *Val {
 	i := idx.T()
 	switch {
 	case base.Seq:
-		et := sliceElem(base.Ty)
-		return &Val{Ty: et, L: []string{tSel(base.L[0], tAdd(base.L[1], i))}}
+		return seqIndex(base.L, sliceElem(base.Ty), i)
 	case isString(base.Ty):
 		return mkInt(types.Typ[types.Uint8], tSel(base.L[0], tAdd(base.L[1], i)))
 	case isSlice(base.Ty):
@@ -416,9 +416,11 @@ func (env *SpecEnv) slice(n *ast.SliceExpr) *Val {
 	switch {
 	case base.Seq || isString(base.Ty):
 		if hi == "" {
-			hi = base.L[2]
+			hi = seqLen(base.L)
 		}
-		return &Val{Ty: base.Ty, L: []string{base.L[0], tAdd(base.L[1], lo), tSub(hi, lo)}, Seq: base.Seq}
+		nl := append([]string(nil), base.L[:len(base.L)-2]...)
+		nl = append(nl, tAdd(seqOff(base.L), lo), tSub(hi, lo))
+		return &Val{Ty: base.Ty, L: nl, Seq: base.Seq}
 	case isSlice(base.Ty):
 		if hi == "" {
 			hi = base.L[2]
@@ -458,6 +460,13 @@ func (env *SpecEnv) call(n *ast.CallExpr) *Val {
 			sub := *env
 			sub.st = env.old
 			return sub.eval(n.Args[0])
+		case "entry":
+			if env.entry == nil {
+				sfail("entry() is only available in loop clauses")
+			}
+			sub := *env
+			sub.st = env.entry
+			return sub.eval(n.Args[0])
 		case "ite":
 			c := env.eval(n.Args[0]).T()
 			a := env.eval(n.Args[1])
@@ -471,7 +480,9 @@ func (env *SpecEnv) call(n *ast.CallExpr) *Val {
 		case "len":
 			v := env.eval(n.Args[0])
 			switch {
-			case v.Seq || isString(v.Ty) || isSlice(v.Ty):
+			case v.Seq:
+				return mkInt(types.Typ[types.Int], seqLen(v.L))
+			case isString(v.Ty) || isSlice(v.Ty):
 				return mkInt(types.Typ[types.Int], v.L[2])
 			case isArray(v.Ty):
 				return mkInt(types.Typ[types.Int], num(under(v.Ty).(*types.Array).Len()))
@@ -671,7 +682,7 @@ func (env *SpecEnv) callSpec(sf *SpecFunc, args []*Val) *Val {
 					s = x.seqOf(env.st, a)
 				}
 				flat = append(flat, s...)
-				sorts = append(sorts, arrSort(leafSorts(sliceElem(ptypes[i]))[0]), sInt, sInt)
+				sorts = append(sorts, seqSorts(sliceElem(ptypes[i]))...)
 			} else {
 				flat = append(flat, a.L...)
 				sorts = append(sorts, leafSorts(ptypes[i])...)
@@ -691,8 +702,12 @@ func (env *SpecEnv) callSpec(sf *SpecFunc, args []*Val) *Val {
 				for i, p := range sf.Params {
 					var fv *Val
 					if isSlice(ptypes[i]) {
-						fv = &Val{Ty: ptypes[i], Seq: true, L: []string{"p_" + p.Name + "_a", "p_" + p.Name + "_o", "p_" + p.Name + "_l"}}
-						formals = append(formals, "("+fv.L[0]+" "+arrSort(leafSorts(sliceElem(ptypes[i]))[0])+")", "("+fv.L[1]+" Int)", "("+fv.L[2]+" Int)")
+						fv = &Val{Ty: ptypes[i], Seq: true}
+						for j, s := range seqSorts(sliceElem(ptypes[i])) {
+							nm := fmt.Sprintf("p_%s_s%d", p.Name, j)
+							fv.L = append(fv.L, nm)
+							formals = append(formals, "("+nm+" "+s+")")
+						}
 					} else {
 						ss := leafSorts(ptypes[i])
 						fv = &Val{Ty: ptypes[i], L: make([]string, len(ss))}
